@@ -812,6 +812,103 @@ fn sequence_fallback(o: &Opts) -> Option<String> {
     Some(path)
 }
 
+/// Diagnostic (NOT a check, and not this family's technique): enumerate the whole word -> sample
+/// mapping of the three samplers as they are today (one accepted word per `gen_range` call:
+/// P8E0 64 values, P16E1 2^18, P32E2 2^27 x 4), assuming rand 0.8's mapping for the crate's present
+/// power-of-two ranges. Used only to classify survivors of tools/mutation_sweep.py --regions c19arith
+/// as "property still holds for every stream" or "blind spot". Prints the number of bad samples.
+fn enumerate_samplers() -> i32 {
+    use rand::Rng;
+    use softposit::{P16E1, P32E2, P8E0};
+    let bad_total = std::sync::atomic::AtomicU64::new(0);
+    let first_bad: Mutex<Vec<String>> = Mutex::new(Vec::new());
+    let note = |s: String| {
+        let mut g = first_bad.lock().unwrap();
+        if g.len() < 8 {
+            g.push(s);
+        }
+    };
+    // P8E0: value v in 0..64 from word v << 26
+    for v in 0u32..64 {
+        let w = v << 26;
+        let r = std::panic::catch_unwind(|| {
+            let mut rng = rngsim::ScriptedRng::new(vec![(rngsim::Method::U32, w as u64)]);
+            let p: P8E0 = rng.gen();
+            p.to_bits() as u32
+        });
+        match r {
+            Ok(b) if rngsim::judge(posit_ref::QT::Q8, b).is_none() => {}
+            Ok(b) => {
+                bad_total.fetch_add(1, Ordering::Relaxed);
+                note(format!("P8E0 word {w:08x} -> {b:02x}"));
+            }
+            Err(_) => {
+                bad_total.fetch_add(1, Ordering::Relaxed);
+                note(format!("P8E0 word {w:08x} -> panic"));
+            }
+        }
+    }
+    // P16E1: value v in 0..2^18 from word v << 14 (bit 13 clear: accepted)
+    for v in 0u32..(1 << 18) {
+        let w = v << 14;
+        let r = std::panic::catch_unwind(|| {
+            let mut rng = rngsim::ScriptedRng::new(vec![(rngsim::Method::U32, w as u64)]);
+            let p: P16E1 = rng.gen();
+            p.to_bits() as u32
+        });
+        match r {
+            Ok(b) if rngsim::judge(posit_ref::QT::Q16, b).is_none() => {}
+            Ok(b) => {
+                bad_total.fetch_add(1, Ordering::Relaxed);
+                note(format!("P16E1 word {w:08x} -> {b:04x}"));
+            }
+            Err(_) => {
+                bad_total.fetch_add(1, Ordering::Relaxed);
+                note(format!("P16E1 word {w:08x} -> panic"));
+            }
+        }
+    }
+    // P32E2: first value v in 0..2^27 from word v << 5 (bit 4 clear), second value s2 from s2 << 30
+    let threads = 16u32;
+    std::thread::scope(|sc| {
+        for t in 0..threads {
+            let bad_total = &bad_total;
+            let note = &note;
+            sc.spawn(move || {
+                let lo = (1u64 << 27) * t as u64 / threads as u64;
+                let hi = (1u64 << 27) * (t as u64 + 1) / threads as u64;
+                for v in lo..hi {
+                    for s2 in 0u32..4 {
+                        let (w1, w2) = ((v as u32) << 5, s2 << 30);
+                        let r = std::panic::catch_unwind(|| {
+                            let mut rng = rngsim::ScriptedRng::new(vec![(rngsim::Method::U32, w1 as u64), (rngsim::Method::U32, w2 as u64)]);
+                            let p: P32E2 = rng.gen();
+                            p.to_bits()
+                        });
+                        match r {
+                            Ok(b) if rngsim::judge(posit_ref::QT::Q32, b).is_none() => {}
+                            Ok(b) => {
+                                bad_total.fetch_add(1, Ordering::Relaxed);
+                                note(format!("P32E2 words {w1:08x} {w2:08x} -> {b:08x}"));
+                            }
+                            Err(_) => {
+                                bad_total.fetch_add(1, Ordering::Relaxed);
+                                note(format!("P32E2 words {w1:08x} {w2:08x} -> panic / script exhausted (the sampler draws differently)"));
+                            }
+                        }
+                    }
+                }
+            });
+        }
+    });
+    let n = bad_total.load(Ordering::Relaxed);
+    println!("ENUMERATE bad={n}");
+    for l in first_bad.lock().unwrap().iter() {
+        println!("  {l}");
+    }
+    if n == 0 { 0 } else { 1 }
+}
+
 /// Diagnostic (not a check): replay the logic of the crate's own `quire32::ops::test_quire_mul_sub`
 /// (q -= (a,b); q += c; compare with P32E2::from((-a).mul_add(b, c)) in f64) on sampler-distributed
 /// operands, and say, for each disagreement, which side the exact reference supports.
@@ -1366,6 +1463,7 @@ fn main() {
             None => 2,
         },
         Some("seqfind") => cmd_seqfind(&args[1..]),
+        Some("enumerate-samplers") => enumerate_samplers(),
         Some("probe-suite-fma") => probe_suite_fma(args.get(1).and_then(|v| v.parse().ok()).unwrap_or(10_000_000)),
         Some("replay") => match args.get(1) {
             Some(p) => do_replay(p),
